@@ -205,14 +205,8 @@ def r3(ctx, r):
             r.instance()
             r.fail(ds, w, "write result dropped", "the result of %s is not kept: a short or refused write cannot be handled" % w.node["callee"])
             continue
-        vocab = Vocab(["pos", "partial"])
+        vocab = Vocab(["pos", "partial", "pending"])
         leaf = _pos_partial_leaf(nv, is_payload_size)
-
-        def effects(e, w=w, nv=nv):
-            if e is w or (e.kind == "stmt" and e.node.get("k") == "bin" and e.node["op"] == "=" and e.node["lhs"].get("k") == "var" and e.node["lhs"]["n"] == nv):
-                return [("havoc_all", ["pos", "partial"])]
-            return None
-        pa = PredAbs(ds, vocab, leaf, effects)
 
         def handled(e):
             if e.kind != "stmt":
@@ -220,25 +214,32 @@ def r3(ctx, r):
             if _wq(e.node, ("emplace_back", "push_back", "emplace_front", "push_front")):
                 return True
             return e.node.get("k") == "mcall" and e.node.get("callee") == TE + "::closeNow"
-        # every return reachable from the write without queueing/closing is a complete write
+
+        def effects(e, w=w, nv=nv):
+            if e is w:
+                # ghost atom: bytes handed to the write call are not yet accounted for
+                return [("havoc_all", ["pos", "partial"]), ("set", "pending", True)]
+            if e.kind == "stmt" and e.node.get("k") == "bin" and e.node["op"] == "=" and e.node["lhs"].get("k") == "var" and e.node["lhs"]["n"] == nv and \
+                    not any(x is w.node for x in walk(e.node)):
+                return [("havoc_all", ["pos", "partial"])]
+            if handled(e):
+                return [("set", "pending", False)]
+            return None
+        pa = PredAbs(ds, vocab, leaf, effects, init=Not(A("pending")))
+        # at the function exit: nothing pending, unless the write was complete (n >= 0 and not short)
         r.instance()
+        goal = Or(Not(A("pending")), And(A("pos"), Not(A("partial"))))
         bad = None
-        for ret in common.returns(ds) + [None]:
-            if ret is None:
-                wit = search(ds, w, "exit", stop=lambda x: handled(x) or x.node.get("k") == "ret" if x.kind == "stmt" else False, eh=False,
-                             edge_ok=lambda b, si: pa.edge_feasible(b, si))
-                if wit is not None:
-                    bad = ("falls off the end", wit)
-                continue
-            wit = search(ds, w, lambda x, ret=ret: x is ret, stop=handled, eh=False, edge_ok=lambda b, si: pa.edge_feasible(b, si))
-            if wit is None:
-                continue
-            if not pa.entails(ret, And(A("pos"), Not(A("partial")))):
-                bad = ("return at line %s with %s" % (ret.line, ",".join(pa.describe(ret)) or "nothing known"), wit)
+        for ret in common.returns(ds):
+            if not pa.entails(ret, goal):
+                bad = ret
                 break
-        r.expect(bad is None, ds, w, "%s: bytes dropped" % w.node["callee"],
-                 "after %s a path returns without queueing the unsent bytes or closing the session although the write may have been short or refused (%s)" % (
-                     w.node["callee"], bad[0] if bad else ""), witness=witness_str(ds, bad[1]) if bad else None,
+        if bad is None and not pa.exit_entails(goal):
+            bad = "end"
+        r.expect(bad is None, ds, bad if bad not in (None, "end") else w, "%s: bytes dropped" % w.node["callee"],
+                 "after %s the function can return (line %s) with the payload neither queued, nor the session closed, nor the write known complete "
+                 "(known there: %s): bytes of an accepted send are lost" % (w.node["callee"], getattr(bad, "line", "end"),
+                                                                          ",".join(pa.describe(bad)) if bad not in (None, "end") else ",".join(pa.describe_exit())),
                  okdesc="after %s every exit queued the rest, closed, or the write was complete" % w.node["callee"])
         # the tail buffer is [payload.begin()+n, payload.end()) of this very n, built on the partial edge
         tails = []
@@ -335,25 +336,30 @@ def r4(ctx, r):
             w = search(ds, e, "exit", stop=rearm, eh=False)
             r.expect(w is None, ds, e, "queued without re-arm", "data is left in the write queue on a path that returns without updateInterest(): with edge-triggered epoll the tail is never sent",
                      witness=witness_str(ds, w), okdesc="doSend: queueing is followed by updateInterest/closeNow")
-    vocab = Vocab(["wqempty"])
+    vocab = Vocab(["wqempty", "armed"])
 
     def leaf(n):
         if _wq(n, ("empty",)):
             return A("wqempty")
         return None
+    wcalls = _write_calls(wp)
 
     def eff(e):
-        if e.kind == "stmt" and _wq(e.node) in access.MUTATORS:
-            return [("havoc", "wqempty")]
-        if e.kind == "stmt" and e.node.get("k") == "mcall" and (e.node.get("obj") or {}).get("k") == "var" and last(e.node["callee"]) in access.MUTATORS:
+        if e.kind != "stmt":
             return None
+        if e in wcalls:
+            return [("set", "armed", False)]      # ghost: the socket state changed, interest must be recomputed
+        if rearm(e):
+            return [("set", "armed", True)]
+        if _wq(e.node) in access.MUTATORS:
+            return [("havoc", "wqempty")]
         return None
-    pa = PredAbs(wp, vocab, leaf, eff)
-    for wcall in _write_calls(wp):
-        r.instance()
-        w = search(wp, wcall, "exit", stop=rearm, eh=False, edge_ok=lambda b, si: pa.edge_feasible(b, si))
-        r.expect(w is None, wp, wcall, "write without re-arm", "after %s a path leaves writePending without updateInterest(): EPOLLOUT interest is stale (stall or busy loop)" % wcall.node["callee"],
-                 witness=witness_str(wp, w), okdesc="writePending: every exit after %s passes updateInterest/closeNow" % wcall.node["callee"])
+    pa = PredAbs(wp, vocab, leaf, eff, init=A("armed"))
+    r.instance(len(wcalls))
+    bad = [ret for ret in common.returns(wp) if not pa.entails(ret, A("armed"))]
+    r.expect(not bad and pa.exit_entails(A("armed")), wp, bad[0] if bad else None, "write without re-arm",
+             "after a write call a path leaves writePending without updateInterest(): EPOLLOUT interest is stale (a stalled tail in edge-triggered mode, or a busy loop)",
+             okdesc="writePending: every exit after a write passes updateInterest/closeNow")
     # updateInterest: EPOLLOUT whenever the queue is non-empty
     ui = _fn(ctx, "updateInterest")
     vocab = Vocab(["nonempty", "need"])
@@ -402,6 +408,8 @@ def r4(ctx, r):
 # ------------------------------------------------------------------ R5
 
 def tls_leaf(n):
+    if n.get("k") == "mcall" and n.get("callee") == TE + "::driveHandshake":
+        return A("dh_ok")
     if n.get("k") == "bin" and n["op"] in ("==", "!="):
         l, rr = strip_casts(n["lhs"]), strip_casts(n["rhs"])
         f = field_of(l) if l.get("k") == "member" else None
@@ -435,7 +443,8 @@ def tls_effects(fb):
             if f == SESS + "::tlsMode":
                 return [("havoc", "tls")]
         if n.get("k") == "mcall" and n.get("callee") == TE + "::driveHandshake":
-            return [("havoc_all", ["hs", "open"]), ("assume", TLS_AXIOM)]
+            # summary (checked in r5): driveHandshake returns true only with tlsState == Open
+            return [("havoc_all", ["hs", "open", "dh_ok"]), ("assume", TLS_AXIOM), ("assume", Or(Not(A("dh_ok")), And(A("open"), Not(A("hs")))))]
         if n.get("k") == "mcall" and n.get("callee") in (TE + "::readAvail", TE + "::closeNow"):
             return None
         return None
@@ -444,7 +453,7 @@ def tls_effects(fb):
 
 def r5(ctx, r):
     fb = ctx.fb()
-    vocab = Vocab(["tls", "hs", "open"])
+    vocab = Vocab(["tls", "hs", "open", "dh_ok"])
     # invariant: tlsMode != None  =>  tlsState in {Handshake, Open}
     n_mode = 0
     for f in fb.in_file(FILE):
@@ -460,7 +469,9 @@ def r5(ctx, r):
 
             def inserted(x):
                 return x.kind == "stmt" and x.node.get("k") == "mcall" and field_of(x.node.get("obj")) == TE + "::_sessions" and last(x.node["callee"]) in ("emplace", "insert", "try_emplace")
-            w = search(f, e, inserted, stop=sets_state, eh=False)
+            def new_session(x):
+                return x.kind == "stmt" and x.node.get("k") == "call" and x.node.get("callee") == "std::make_unique" and "Session" in x.node.get("t", "")
+            w = search(f, e, inserted, stop=lambda x: sets_state(x) or new_session(x), eh=False)
             r.expect(w is None, f, e, "tlsMode without tlsState", "a session gets a TLS mode and becomes visible in _sessions without its tlsState set to Handshake/Open: "
                      "the write path would treat it as plaintext", witness=witness_str(f, w), okdesc="%s: tlsMode set ⇒ tlsState = Handshake before insertion" % short(f.name))
         for (e, node, kind) in common.field_writes(f, SESS + "::tlsState"):
@@ -472,6 +483,14 @@ def r5(ctx, r):
     if n_mode < 2:
         raise AnalysisBroken("expected tlsMode to be assigned in onListener and doConnect")
     eff = tls_effects(fb)
+    # summary of driveHandshake: `return true` only with the session Open
+    dh = _fn(ctx, "driveHandshake")
+    pa_dh = PredAbs(dh, vocab, tls_leaf, eff, init=TLS_AXIOM)
+    for ret in common.returns(dh):
+        if const_value(ret.node.get("v") or {}) == 1:
+            r.instance()
+            r.expect(pa_dh.entails(ret, And(A("open"), Not(A("hs")))), dh, ret, "handshake summary", "driveHandshake returns true on a path where tlsState is not Open",
+                     okdesc="driveHandshake: return true ⇒ tlsState == Open")
     ds = _fn(ctx, "doSend")
     pa = PredAbs(ds, vocab, tls_leaf, eff, init=TLS_AXIOM)
     for e in _write_calls(ds):
@@ -571,7 +590,7 @@ def r6(ctx, r):
                  witness=witness_str(ra, w), okdesc="%s: n > 0 always reaches the data callback" % rd.node["callee"])
     # after delivering, the loop keeps reading (edge-triggered: drain until would-block)
     r.instance()
-    w = search(ra, inv, "exit", stop=lambda x: x in reads, eh=False)
+    w = search(ra, inv, "exit", stop=lambda x: x in reads or (x.kind == "stmt" and x.node.get("k") == "mcall" and x.node.get("callee") == TE + "::closeNow"), eh=False)
     r.expect(w is None, ra, inv, "read loop stops early", "after delivering a chunk readAvail can return without reading again: with edge-triggered epoll the rest of the data is never read",
              witness=witness_str(ra, w), okdesc="after onData the loop reads again")
 
@@ -596,12 +615,7 @@ def r7(ctx, r):
                  okdesc="oldest buffer dropped only when closeOnBackpressure is off")
     # default of the policy
     r.instance()
-    dflt = None
-    for recs in fb.records.values():
-        for rec in recs:
-            for fld in rec["fields"]:
-                if fld["n"] == "closeOnBackpressure" and rec["name"].endswith("TransportConfig"):
-                    dflt = const_value(fld["init"]) if fld.get("init") else None
+    dflt = common.field_default(fb, "TransportConfig", "closeOnBackpressure")
     r.expect(dflt == 1, ds, None, "closeOnBackpressure default", "TransportConfig::closeOnBackpressure does not default to true (found %r)" % dflt,
              okdesc="TransportConfig::closeOnBackpressure defaults to true")
 
